@@ -25,7 +25,7 @@ from ..util import digest, short, stream
 
 ID = "C03"
 PRELOAD = ["sqllineage.runner", "sim.props.c03"]
-BUDGET_S = {"quick": 120.0, "thorough": 1500.0}
+BUDGET_S = {"quick": 240.0, "thorough": 1500.0}
 
 DESCRIPTION = {
     "rule": (
@@ -50,7 +50,8 @@ DESCRIPTION = {
     ],
     "required_probes": {
         "quick": ["drop_after_wiring", "drop_removed", "rename_determined", "rename_loose", "selfloop", "recreate_after_drop",
-                  "reorder_checked", "duplicate_checked", "multi_pair_rename", "sql_path", "shared_runner_threads", "sql_column_bearing_history", "constant_write_beside_ambiguous_column"],
+                  "reorder_checked", "duplicate_checked", "multi_pair_rename", "sql_path", "shared_runner_threads", "sql_column_bearing_history", "constant_write_beside_ambiguous_column", "stray_qualifier_names_a_table_of_the_script",
+                  "directory_read_and_overwritten_by_one_statement"],
         "thorough": ["drop_after_wiring", "drop_removed", "rename_determined", "rename_loose", "selfloop", "recreate_after_drop",
                      "reorder_checked", "duplicate_checked", "multi_pair_rename", "sql_path"],
     },
@@ -366,7 +367,22 @@ def _result(spec, model, viol, states, note=None, extra=None):
 # SQL path
 
 
-def render(op, g, dialect_multi="mysql", columns=False, universe=()):
+def render(op, g, dialect_multi="mysql", columns=False, universe=(), path_member=None):
+    if op[0] == "rw" and path_member is not None and (path_member in op[1] or op[2] == path_member):
+        # one member of the universe is a DIRECTORY dataset (sparksql): read as parquet.`/data/x`, written by INSERT
+        # OVERWRITE DIRECTORY - the summary reports it through the same roles as a table
+        R, w = op[1], op[2]
+        P = path_member
+        item = lambda r, i: (f"parquet.`/data/{P}` p{i}" if r == P else f"{r} p{i}")
+        frm = ""
+        if R:
+            frm = " FROM " + item(R[0], 0) + "".join(f" JOIN {item(r, i + 1)} ON p0.k = p{i + 1}.k" for i, r in enumerate(R[1:]))
+        sel = "SELECT " + ("*" if R else "1") + frm
+        if w is None:
+            return sel
+        if w == P:
+            return f"INSERT OVERWRITE DIRECTORY '/data/{P}' {sel}"
+        return g.choice([f"INSERT INTO {w} {sel}", f"CREATE TABLE {w} AS {sel}"])
     if op[0] == "rw":
         R, w = op[1], op[2]
         stray = [u for u in universe if u not in R and u != w]
@@ -420,7 +436,8 @@ def check_history_sql(spec) -> dict:
     for op in ops:
         k = json.dumps(op)
         if k not in rendered:
-            rendered[k] = render(op, g, columns=bool(spec.get("columns")) and all(o[0] == "rw" for o in ops), universe=[u for u in spec["universe"] if u not in ("e", "f")])
+            rendered[k] = render(op, g, columns=bool(spec.get("columns")) and all(o[0] == "rw" for o in ops), universe=[u for u in spec["universe"] if u not in ("e", "f")],
+                                 path_member=spec.get("path_member") if all(o[0] == "rw" for o in ops) else None)
         stmts.append(rendered[k])
     universe = {q(t) for t in spec["universe"]}
     facts = []
@@ -450,6 +467,10 @@ def check_history_sql(spec) -> dict:
                 model.probe("sql_with_metadata_provider")
             runner = LineageRunner(";\n".join(stmts[:i]), dialect=dialect, **kw)
             obs = observe_runner(runner)
+            if spec.get("path_member") and i == len(stmts) and any("/data/" in s_ for s_ in stmts):
+                model.probe("directory_dataset_in_history")
+                if any(f"DIRECTORY '/data/{spec['path_member']}'" in s_ and f"parquet.`/data/{spec['path_member']}`" in s_ for s_ in stmts):
+                    model.probe("directory_read_and_overwritten_by_one_statement")
             if spec.get("columns") and i == len(stmts):
                 model.probe("sql_column_bearing_history")
                 if any("VALUES" in s_ for s_ in stmts) and any(" JOIN " in s_ and " SELECT v_" in s_ for s_ in stmts):
@@ -713,6 +734,15 @@ def gen_columns(seed) -> dict:
         w = g.choice(universe) if (g.random() < 0.85 or not R) else None
         ops.append(["rw", R, w])
     meta = {t: ["k", f"v_{t}"] for t in universe if g.random() < 0.5} if g.random() < 0.5 else None
+    gp = stream(seed, "gen-columns-path")
+    if gp.random() < 0.3:
+        # a directory dataset among the members (sparksql); self-loops on it are wanted
+        P = gp.choice(universe)
+        for o in ops:
+            if o[2] == P and gp.random() < 0.5 and P not in o[1]:
+                o[1].append(P)
+        return {"seed": seed, "path": "sql", "ops": ops, "universe": sorted(set(universe) | {"e", "f"}), "share_holders": False, "columns": True, "dialect": "sparksql",
+                "path_member": P, "provider_meta": None, "shared_runner": False, "insertion_sweep": False}
     return {"seed": seed, "path": "sql", "ops": ops, "universe": sorted(set(universe) | {"e", "f"}), "share_holders": False, "columns": True,
             "provider_meta": meta or None, "shared_runner": g.random() < 0.2, "insertion_sweep": False}
 
